@@ -95,18 +95,32 @@ func (l *LevelKV) Set(id []byte, val []byte) error {
 
 // Update runs an alteration transaction of the kvstore
 func (l *LevelKV) Update(u func(tx kvi.KVTransaction) error) error {
-	tx, _ := l.db.OpenTransaction()
+	tx, err := l.db.OpenTransaction()
+	if err != nil {
+		return err
+	}
 	ktx := levelTransaction{tx, l.db}
-	defer tx.Commit()
-	return u(ktx)
+	err = u(ktx)
+	if err != nil {
+		tx.Discard()
+		return err
+	}
+	return tx.Commit()
 }
 
 // BulkWrite is a copy of Update, with no special function yet...
 func (l *LevelKV) BulkWrite(u func(tx kvi.KVBulkWrite) error) error {
-	tx, _ := l.db.OpenTransaction()
+	tx, err := l.db.OpenTransaction()
+	if err != nil {
+		return err
+	}
 	ktx := levelTransaction{tx, l.db}
-	defer tx.Commit()
-	return u(ktx)
+	err = u(ktx)
+	if err != nil {
+		tx.Discard()
+		return err
+	}
+	return tx.Commit()
 }
 
 type levelTransaction struct {
